@@ -262,10 +262,226 @@ def render(info):
     return "\n".join(L) + "\n"
 
 
+# ---------------------------------------------------------------------------------------
+# decision shape of the three index_of methods  ->  NixModel/Generated/DimShape.lean
+
+OUT_SHAPE = "NixModel/Generated/DimShape.lean"
+_VALS = {"position": ".position", "scaled_position": ".scaled", "index": ".index"}
+_CMP_WHERE = {ast.LtE: "le", ast.Lt: "lt", ast.GtE: "ge", ast.Gt: "gt"}
+
+
+def _src_of(node):
+    return "line %d" % getattr(node, "lineno", -1)
+
+
+def _is_len_minus_1(node, seq):
+    return (isinstance(node, ast.BinOp) and isinstance(node.op, ast.Sub) and isinstance(node.right, ast.Constant)
+            and node.right.value == 1 and _is_len(node.left, seq))
+
+
+def _is_len(node, seq):
+    return (isinstance(node, ast.Call) and isinstance(node.func, ast.Name) and node.func.id == "len"
+            and len(node.args) == 1 and isinstance(node.args[0], ast.Name) and node.args[0].id == seq
+            and not node.keywords)
+
+
+def _val(node, seq):
+    """numeric operand of a comparison"""
+    if isinstance(node, ast.Name) and node.id in _VALS:
+        return _VALS[node.id]
+    if isinstance(node, ast.Constant) and node.value == 0 and not isinstance(node.value, bool):
+        return ".zero"
+    if isinstance(node, ast.Subscript) and isinstance(node.value, ast.Name) and node.value.id == seq == "ticks":
+        ix = node.slice
+        if isinstance(ix, ast.Constant) and ix.value == 0:
+            return ".first"
+        if isinstance(ix, ast.UnaryOp) and isinstance(ix.op, ast.USub) and isinstance(ix.operand, ast.Constant) \
+                and ix.operand.value == 1:
+            return ".last"
+    if seq and _is_len_minus_1(node, seq):
+        return ".lenMinus1"
+    raise ExtractError("index_of: operand not recognised (%s)" % _src_of(node))
+
+
+def _mode_member(node):
+    return _attr_of(node, "IndexMode")
+
+
+def _test(node, seq, closes):
+    if isinstance(node, ast.BoolOp) and isinstance(node.op, ast.And):
+        parts = [_test(v, seq, closes) for v in node.values]
+        out = parts[-1]
+        for p in reversed(parts[:-1]):
+            out = "(.and %s %s)" % (p, out)
+        return out
+    if isinstance(node, ast.Name) and node.id == seq == "dim_labels":
+        return ".hasLabels"
+    if seq == "dim_labels" and _is_len(node, seq):
+        return ".hasLabels"
+    if _is_np_call(node, "isclose"):
+        k = closes.index(node)
+        return "(.close %d %s %s)" % (k, _val(node.args[0], seq), _val(node.args[1], seq))
+    if isinstance(node, ast.Compare) and len(node.ops) == 1:
+        op, left, right = node.ops[0], node.left, node.comparators[0]
+        if isinstance(left, ast.Name) and left.id == "mode":
+            if isinstance(op, ast.Eq):
+                return "(.modeIs %s)" % lean_str(_mode_member(right))
+            if isinstance(op, ast.In) and isinstance(right, (ast.Tuple, ast.List)):
+                return "(.modeIn %s)" % lean_list([lean_str(_mode_member(e)) for e in right.elts])
+            raise ExtractError("index_of: test on mode not recognised (%s)" % _src_of(node))
+        a, b = _val(left, seq), _val(right, seq)
+        if isinstance(op, ast.Lt):
+            return "(.lt %s %s)" % (a, b)
+        if isinstance(op, ast.Gt):
+            return "(.gt %s %s)" % (a, b)
+        if isinstance(op, ast.Eq):
+            return "(.eq %s %s)" % (a, b)
+        if isinstance(op, ast.LtE):      # a <= b  ==  not (a > b): not in the language on purpose
+            raise ExtractError("index_of: `<=` guard is not modelled (%s)" % _src_of(node))
+    raise ExtractError("index_of: test not recognised (%s)" % _src_of(node))
+
+
+def _result(node, seq):
+    """expression of a `return`"""
+    if isinstance(node, ast.Name) and node.id == "index":
+        return ".index"
+    if isinstance(node, ast.Constant) and node.value == 0 and not isinstance(node.value, bool):
+        return ".zero"
+    if isinstance(node, ast.BinOp) and isinstance(node.left, ast.Name) and node.left.id == "index" \
+            and isinstance(node.right, ast.Constant) and node.right.value == 1:
+        if isinstance(node.op, ast.Add):
+            return ".indexPlus1"
+        if isinstance(node.op, ast.Sub):
+            return ".indexMinus1"
+    if seq and _is_len_minus_1(node, seq):
+        return ".lenMinus1"
+    # np.where(ticks <cmp> position)[0][-1 | 0]
+    if isinstance(node, ast.Subscript) and isinstance(node.value, ast.Subscript):
+        inner = node.value
+        if _is_np_call(inner.value, "where") and isinstance(inner.slice, ast.Constant) and inner.slice.value == 0 \
+                and len(inner.value.args) == 1 and isinstance(inner.value.args[0], ast.Compare):
+            cmp_ = inner.value.args[0]
+            if (len(cmp_.ops) == 1 and type(cmp_.ops[0]) in _CMP_WHERE and isinstance(cmp_.left, ast.Name)
+                    and cmp_.left.id == "ticks" and isinstance(cmp_.comparators[0], ast.Name)
+                    and cmp_.comparators[0].id == "position"):
+                c = _CMP_WHERE[type(cmp_.ops[0])]
+                ix = node.slice
+                if isinstance(ix, ast.Constant) and ix.value == 0:
+                    return "(.whereFirst %s)" % lean_str(c)
+                if isinstance(ix, ast.UnaryOp) and isinstance(ix.op, ast.USub) and isinstance(ix.operand, ast.Constant) \
+                        and ix.operand.value == 1:
+                    return "(.whereLast %s)" % lean_str(c)
+    raise ExtractError("index_of: returned expression not recognised (%s)" % _src_of(node))
+
+
+def _is_prelude(st, seq):
+    """statements that only fetch / convert the sequence: `if x is None: x = self.<attr>`, `ticks = np.array(ticks)`,
+    `offset = …`, `sample = …`, `scaled_position = (position - offset) / sample`, the docstring"""
+    if isinstance(st, ast.Expr) and isinstance(st.value, ast.Constant):
+        return True
+    if isinstance(st, ast.If) and isinstance(st.test, ast.Compare) and isinstance(st.test.ops[0], ast.Is) \
+            and isinstance(st.test.left, ast.Name) and st.test.left.id == seq and not st.orelse \
+            and len(st.body) == 1 and isinstance(st.body[0], ast.Assign) \
+            and isinstance(st.body[0].targets[0], ast.Name) and st.body[0].targets[0].id == seq \
+            and isinstance(st.body[0].value, ast.Attribute) and isinstance(st.body[0].value.value, ast.Name) \
+            and st.body[0].value.value.id == "self":
+        return True
+    if isinstance(st, ast.Assign) and len(st.targets) == 1 and isinstance(st.targets[0], ast.Name):
+        t = st.targets[0].id
+        if t == seq == "ticks" and _is_np_call(st.value, "array") and len(st.value.args) == 1 \
+                and isinstance(st.value.args[0], ast.Name) and st.value.args[0].id == "ticks":
+            return True
+        if t == "offset":
+            # offset = self.offset if self.offset else 0
+            v = st.value
+            return (isinstance(v, ast.IfExp) and isinstance(v.orelse, ast.Constant) and v.orelse.value == 0
+                    and ast.dump(v.test) == ast.dump(v.body) and isinstance(v.body, ast.Attribute)
+                    and v.body.attr == "offset")
+        if t == "sample":
+            return isinstance(st.value, ast.Attribute) and st.value.attr == "sampling_interval"
+        if t == "scaled_position":
+            v = st.value
+            return (isinstance(v, ast.BinOp) and isinstance(v.op, ast.Div) and isinstance(v.right, ast.Name)
+                    and v.right.id == "sample" and isinstance(v.left, ast.BinOp) and isinstance(v.left.op, ast.Sub)
+                    and isinstance(v.left.left, ast.Name) and v.left.left.id == "position"
+                    and isinstance(v.left.right, ast.Name) and v.left.right.id == "offset")
+    return False
+
+
+def _terminates(stmts):
+    """does every path through the statement list end in return / raise?"""
+    if not stmts:
+        return False
+    last = stmts[-1]
+    if isinstance(last, (ast.Return, ast.Raise)):
+        return True
+    if isinstance(last, ast.If):
+        return bool(last.orelse) and _terminates(last.body) and _terminates(last.orelse)
+    return False
+
+
+def _tree(stmts, seq, closes, where):
+    """statement list -> Tree term"""
+    if not stmts:
+        raise ExtractError("%s: a path ends without return / raise" % where)
+    st, rest = stmts[0], stmts[1:]
+    if _is_prelude(st, seq):
+        return _tree(rest, seq, closes, where)
+    if isinstance(st, ast.Return):
+        return "(.ret %s)" % _result(st.value, seq)
+    if isinstance(st, ast.Raise):
+        exc = st.exc
+        if isinstance(exc, ast.Call) and isinstance(exc.func, ast.Name):
+            return "(.raise %s)" % lean_str(exc.func.id)
+        raise ExtractError("%s: raise not recognised (%s)" % (where, _src_of(st)))
+    if isinstance(st, ast.Assign) and len(st.targets) == 1 and isinstance(st.targets[0], ast.Name) \
+            and st.targets[0].id == "index":
+        v = st.value
+        if (isinstance(v, ast.Call) and isinstance(v.func, ast.Name) and v.func.id == "int" and len(v.args) == 1
+                and isinstance(v.args[0], ast.Call) and isinstance(v.args[0].func, ast.Attribute)
+                and isinstance(v.args[0].func.value, ast.Name) and v.args[0].func.value.id == "np"
+                and v.args[0].func.attr in ("round", "floor", "ceil") and len(v.args[0].args) == 1):
+            return "(.setIndex %s %s %s)" % (lean_str(v.args[0].func.attr), _val(v.args[0].args[0], seq),
+                                             _tree(rest, seq, closes, where))
+        raise ExtractError("%s: assignment to index not recognised (%s)" % (where, _src_of(st)))
+    if isinstance(st, ast.If):
+        body = list(st.body) if _terminates(st.body) else list(st.body) + rest
+        orelse = (list(st.orelse) if _terminates(st.orelse) else list(st.orelse) + rest) if st.orelse else rest
+        return "(.ite %s %s %s)" % (_test(st.test, seq, closes), _tree(body, seq, closes, where),
+                                    _tree(orelse, seq, closes, where))
+    raise ExtractError("%s: statement not recognised (%s)" % (where, _src_of(st)))
+
+
+def read_shapes(repo):
+    path = os.path.join(repo, SRC)
+    tree = ast.parse(open(path, encoding="utf-8").read())
+    out = {}
+    for cls, seq, name in (("SampledDimension", None, "sampledIndexOfTree"), ("RangeDimension", "ticks", "rangeIndexOfTree"),
+                           ("SetDimension", "dim_labels", "setIndexOfTree")):
+        fn = _fn(_cls(tree, cls), "index_of")
+        closes = [c for c, _, _ in _isclose_calls(fn)]
+        out[name] = _tree(list(fn.body), seq, closes, cls + ".index_of")
+    return out
+
+
+def render_shapes(shapes):
+    L = ["/- GENERATED by harness/extract/dims.py from nixio/dimensions.py — do not edit. -/",
+         "import NixModel.Pure.DimShapeLang", "namespace Nix.Dim.Gen", "open Nix.Dim.Shape", "",
+         "/-- decision shape of the three `index_of` methods (order of the guards, comparison per guard, rounding call,",
+         "`np.where` scan, result / exception per mode), see `Pure/DimShapeLang.lean` -/"]
+    for k in ("sampledIndexOfTree", "rangeIndexOfTree", "setIndexOfTree"):
+        L.append("def %s : Tree :=" % k)
+        L.append("  " + shapes[k][1:-1] if shapes[k].startswith("(") else "  " + shapes[k])
+        L.append("")
+    L.append("end Nix.Dim.Gen")
+    return "\n".join(L) + "\n"
+
+
 def extract(repo):
-    return {OUT: render(read(repo))}
+    return {OUT: render(read(repo)), OUT_SHAPE: render_shapes(read_shapes(repo))}
 
 
 if __name__ == "__main__":
     import sys
     print(render(read(sys.argv[1] if len(sys.argv) > 1 else "/repo")))
+    print(render_shapes(read_shapes(sys.argv[1] if len(sys.argv) > 1 else "/repo")))
